@@ -27,6 +27,7 @@ class StateVectorEvolution(MatrixData, BasisManaged):
                                  dtype=numpy.complex128)
         self.dim = psii.data.shape[0]
         self.data[0,:] = psii.data
+        self.is_in_rwa = False
 
 
     def convert_from_RWA(self, ham, sgn=1):
@@ -131,7 +132,8 @@ class StateVectorEvolution(MatrixData, BasisManaged):
         
         """
         
-        rhot = DensityMatrixEvolution(timeaxis=self.TimeAxis)
+        rhot = DensityMatrixEvolution(timeaxis=self.TimeAxis,
+                                      is_in_rwa=self.is_in_rwa)
         
         rhoi = DensityMatrix(dim=self.dim)
         for ii in range(self.dim):
